@@ -351,7 +351,7 @@ def run(ctx):
         # fixed probe of a recorded finding (int/float promotion in the ndarray fast path)
         probe = ["obj", "SA", [["a", ["list", [["scalar", ["int", str(2 ** 62 + 1)]], ["scalar", sc.S(0.5)]]]]]]
         check_case(ctx, drv, probe, [gen_cfg(ctx.rng.fork(999), "zip")], "probe")
-        n = ctx.n(120, 1000)
+        n = ctx.n(120, 800)   # thorough: 800 graphs (80 of them under all 11 compression settings) — keeps the tier within 25 min with the history / argument / dispatch streams
         for i in range(n):
             rng = ctx.rng.fork(i)
             allow = {"rng_in_container": True, "fallback_in_container": True, "npcomplex": True}
